@@ -210,43 +210,51 @@ def run(ctx):
             trees.append(("prune_regraft", c03.regraft(trees[0][1], rng)))
             for hname, tree in trees:
                 old_alpha = float(rng.choice([Fraction(3, 10), Fraction(1), Fraction(5, 2)]))
-                new_draw = float(rng.choice([Fraction(37, 100), Fraction(9, 4), Fraction(1, 10**12)]))
-                values.update(beta=math.exp(-0.5), bernoulli=rng.randint(0, 1), gamma=new_draw)
-                del log[:]
+                first_draw = float(rng.choice([Fraction(37, 100), Fraction(9, 4), Fraction(1, 10**12)]))
+                # a history of updates on ONE distribution object (what the run loop does sweep after sweep): an ordinary draw, a draw
+                # that differs from the current value only in the 7th digit, two different tiny draws (the Gamma(0.01, 0.01) prior with
+                # few clones produces values far below 1e-8), back to an ordinary value
+                draws = [first_draw, None, 3.2e-9, 4.7e-9, float(rng.choice([Fraction(37, 100), Fraction(9, 4)]))]
                 prior = FSCRPDistribution(old_alpha)
                 dist = TreeJointDistribution(prior)
-                before = float(dist.log_p_one(tree))
-                sampler = RecSampler(1.0, 1.0, sentinel_rng)
-                sampler.seen = []
-                update_concentration_value(sampler, tree, dist)
-                replay = {"tree": spec, "history": hname, "old_alpha": old_alpha, "gamma_draw": new_draw, "seen": list(sampler.seen), "alpha_after": float(dist.prior.alpha)}
-                ctx.case(key=spec, nontrivial=(K_true >= 1 or len(spec[1]) >= 1), sample=replay if si % 97 == 5 else None)
-                ctx.count("tree clones=%d" % K_true)
-                ctx.count("tree outliers=%d" % len(spec[1]))
-                if len(sampler.seen) != 1:
-                    ctx.fail("C13:update_concentration_value:calls:%s" % shape_key, "sample() called %d times" % len(sampler.seen), replay)
-                    continue
-                ov, K, n, returned = sampler.seen[0]
-                if (K, n) != (K_true, n_true) or ov != old_alpha:
-                    ctx.fail("C13:update_concentration_value:K_n:%s" % shape_key,
-                             "sample() received (old, K, n) = (%r, %r, %r); the tree has %d clones holding %d non-outlier points, alpha was %r" % (ov, K, n, K_true, n_true, old_alpha), replay)
-                # the 1e-10 floor is a numerical guard outside the statement: the draw itself or the floored draw is accepted
-                if not _is_draw(returned, new_draw):
-                    ctx.fail("C13:update_concentration_value:draw:%s" % shape_key, "sample() returned %r for the gamma draw %r" % (returned, new_draw), replay)
-                expect = returned
-                if dist.prior.alpha != returned:
-                    ctx.fail("C13:update_concentration_value:alpha:%s" % shape_key, "prior.alpha after the update is %r, the sampler returned %r" % (dist.prior.alpha, returned), replay)
-                if not _close(float(dist.prior.log_alpha), math.log(expect)):
-                    ctx.fail("C13:update_concentration_value:log_alpha:%s" % shape_key, "prior.log_alpha = %r but log(alpha) = %r" % (dist.prior.log_alpha, math.log(expect)), replay)
-                fresh = TreeJointDistribution(FSCRPDistribution(expect))
-                for nm in ("log_p_one", "log_p"):
-                    v_after, v_fresh = float(getattr(dist, nm)(tree)), float(getattr(fresh, nm)(tree))
-                    if not _close(v_after, v_fresh):
-                        ctx.fail("C13:update_concentration_value:next-density:%s" % shape_key, "%s after the update is %r, a fresh distribution with the new alpha gives %r" % (nm, v_after, v_fresh), replay)
-                # the density really moved by K * (log new - log old): the new value is in use
-                after = float(dist.log_p_one(tree))
-                if not _close(after - before, K_true * (math.log(expect) - math.log(old_alpha)), tol=1e-7):
-                    ctx.fail("C13:update_concentration_value:uses-new-alpha:%s" % shape_key, "log_p_one changed by %r, expected K*(log new - log old) = %r" % (after - before, K_true * (math.log(expect) - math.log(old_alpha))), replay)
+                for step, new_draw in enumerate(draws if (hname == "children_first" or si >= n_enum) else draws[:1]):
+                    if new_draw is None:
+                        new_draw = float(dist.prior.alpha) * (1 + 3e-7)
+                    old_alpha = float(dist.prior.alpha)
+                    values.update(beta=math.exp(-0.5), bernoulli=rng.randint(0, 1), gamma=new_draw)
+                    del log[:]
+                    before = float(dist.log_p_one(tree))
+                    sampler = RecSampler(1.0, 1.0, sentinel_rng)
+                    sampler.seen = []
+                    update_concentration_value(sampler, tree, dist)
+                    replay = {"tree": spec, "history": hname, "update_number": step, "old_alpha": old_alpha, "gamma_draw": new_draw, "seen": list(sampler.seen), "alpha_after": float(dist.prior.alpha)}
+                    ctx.case(key=spec, nontrivial=(K_true >= 1 or len(spec[1]) >= 1), sample=replay if si % 97 == 5 else None)
+                    ctx.count("tree clones=%d" % K_true)
+                    ctx.count("tree outliers=%d" % len(spec[1]))
+                    if len(sampler.seen) != 1:
+                        ctx.fail("C13:update_concentration_value:calls:%s" % shape_key, "sample() called %d times" % len(sampler.seen), replay)
+                        continue
+                    ov, K, n, returned = sampler.seen[0]
+                    if (K, n) != (K_true, n_true) or ov != old_alpha:
+                        ctx.fail("C13:update_concentration_value:K_n:%s" % shape_key,
+                                 "sample() received (old, K, n) = (%r, %r, %r); the tree has %d clones holding %d non-outlier points, alpha was %r" % (ov, K, n, K_true, n_true, old_alpha), replay)
+                    # the 1e-10 floor is a numerical guard outside the statement: the draw itself or the floored draw is accepted
+                    if not _is_draw(returned, new_draw):
+                        ctx.fail("C13:update_concentration_value:draw:%s" % shape_key, "sample() returned %r for the gamma draw %r" % (returned, new_draw), replay)
+                    expect = returned
+                    if dist.prior.alpha != returned:
+                        ctx.fail("C13:update_concentration_value:alpha:%s" % shape_key, "prior.alpha after the update is %r, the sampler returned %r" % (dist.prior.alpha, returned), replay)
+                    if not _close(float(dist.prior.log_alpha), math.log(expect)):
+                        ctx.fail("C13:update_concentration_value:log_alpha:%s" % shape_key, "prior.log_alpha = %r but log(alpha) = %r" % (dist.prior.log_alpha, math.log(expect)), replay)
+                    fresh = TreeJointDistribution(FSCRPDistribution(expect))
+                    for nm in ("log_p_one", "log_p"):
+                        v_after, v_fresh = float(getattr(dist, nm)(tree)), float(getattr(fresh, nm)(tree))
+                        if not _close(v_after, v_fresh):
+                            ctx.fail("C13:update_concentration_value:next-density:%s" % shape_key, "%s after the update is %r, a fresh distribution with the new alpha gives %r" % (nm, v_after, v_fresh), replay)
+                    # the density really moved by K * (log new - log old): the new value is in use
+                    after = float(dist.log_p_one(tree))
+                    if not _close(after - before, K_true * (math.log(expect) - math.log(old_alpha)), tol=1e-7):
+                        ctx.fail("C13:update_concentration_value:uses-new-alpha:%s" % shape_key, "log_p_one changed by %r, expected K*(log new - log old) = %r" % (after - before, K_true * (math.log(expect) - math.log(old_alpha))), replay)
                 if hname == "children_first" or si >= n_enum:
                     items.append("chk_kn %s %d %d" % (c03.coq_forest(spec), K, n))
                     meta.append(replay)
